@@ -1471,16 +1471,7 @@ def error_path(prog: Program) -> RuleResult:
             res.ok(construct, f"dump_results dominated by `{results} is not None`")
         else:
             res.fail(construct, f"`{short(d)}` is reached when `{results}` is None", mod, d)
-    ok_status = False
-    for node in walk_no_nested(rec):
-        if isinstance(node, ast.Return) and isinstance(node.value, ast.Constant) and node.value.value not in (0, None, False):
-            gs = guards(rec, node)
-            if any(_none_cmp(g, None) is True and pol for g, pol in gs):
-                ok_status = True
-    if ok_status:
-        res.ok(f"{CLI}:reconcile/status", "returns a non-zero status when there is no result")
-    else:
-        res.fail(f"{CLI}:reconcile/status", "no `return <non-zero>` under `results is None`", mod, rec)
+    # (the exit status itself is decided by CLI-FLOW-TABLE, which follows local names)
     # run(): the status is propagated
     main = prog.module("cli.__main__")
     run = prog.func("cli.__main__", "run")
